@@ -924,8 +924,9 @@ def check_roundtrip(spec, ir, level, with_state=True):
             l2, _ = roundtrip(build(spec), ir, "rec")
             rec_sigs = {s_ for s_, _ in diff_views(v0, view(l2), ir, tol=tol, compare_n=False, fields=fields)}
         except Stage:
-            rec_sigs = set()
-        diffs = [(s_ if s_ in rec_sigs else s_ + "@text", w) for s_, w in diffs]
+            rec_sigs = None  # the object-level round trip fails outright (reported separately): no attribution possible
+        if rec_sigs is not None:
+            diffs = [(s_ if s_ in rec_sigs else s_ + "@text", w) for s_, w in diffs]
     for sig, w in diffs:
         issues.append({"base": sig, "kind": "diff", "exc": False, "what": "after %s round trip (%s level): %s" % (ir, level, w)})
     if with_state and runnable_gaussian(v0) and (not diffs or all("dagger-dropped" in d[0] for d in diffs)):
